@@ -311,7 +311,12 @@ class Tr:
             v = st.value
             if isinstance(v, ast.Constant) and isinstance(v.value, str):
                 return self.block(rest, k, brk)
-            if isinstance(v, ast.Call) and self.lv(v.func).split(".")[0] == "logging":
+            if isinstance(v, ast.Call) and self.lv(v.func).split(".")[0] == "logging" and \
+                    not any(isinstance(n, (ast.NamedExpr, ast.Await, ast.Yield)) or
+                            (isinstance(n, ast.Call) and ast.unparse(n.func) not in
+                             ("str", "repr", "float", "int", "len"))
+                            for a in list(v.args) + [kw.value for kw in v.keywords]
+                            for n in ast.walk(a)):
                 return self.block(rest, k, brk)
             err(st, "expression statement")
         if isinstance(st, ast.Pass):
@@ -732,13 +737,21 @@ def gen_tracephase(src):
     if not (isinstance(floop.body[0], ast.Assign) and
             ast.unparse(floop.body[0]) == "TEnd = endpoints[direction]"):
         err(floop.body[0], "TEnd")
-    mk = floop.body[1]
+    pin = ["kwargs = dict(scipyKwargs)",
+           "if kwargs['first_step'] is not None:\n    kwargs['first_step'] = "
+           "min(kwargs['first_step'], abs(TEnd - T0)) or None"]
+    if [ast.unparse(x) for x in floop.body[1:3]] != pin:
+        err(floop.body[1], "RK45 options of one direction (the first step is limited to the "
+                           "distance to the end, nothing else changes)")
+    mk = floop.body[3]
     if not (isinstance(mk, ast.Assign) and ast.unparse(mk.targets[0]) == "ode" and
             isinstance(mk.value, ast.Call) and
             ast.unparse(mk.value.func) in ("scipyint.RK45", "scipy.integrate.RK45") and
             [ast.unparse(a) for a in mk.value.args] == ["odeFunction", "T0", "phase0",
-                                                        "TEnd"]):
-        err(mk, "RK45 construction")
+                                                        "TEnd"] and
+            [(k.arg, ast.unparse(k.value)) for k in mk.value.keywords] ==
+            [(None, "kwargs")]):
+        err(mk, "RK45 construction (function, start, end and **kwargs are pinned)")
     # direction d integrates from T0 to endpoints[d]
     out.append("(* direction 0 integrates from T0 towards %s, direction 1 towards %s *)" % (
         ends.value.elts[0].id, ends.value.elts[1].id))
@@ -759,7 +772,7 @@ def gen_tracephase(src):
     out.append("Definition first_sweep_lists (T0 : R) (phase0 : Fld) (potential0 : R) :=\n"
                "  ([T0], [phase0], [Some potential0]).")
     # ---- the while loop ----------------------------------------------------------------
-    wl = floop.body[2]
+    wl = floop.body[4]
     if not (isinstance(wl, ast.While) and ast.unparse(wl.test) == "ode.status == 'running'"
             and not wl.orelse):
         err(wl, "while loop")
@@ -771,7 +784,7 @@ def gen_tracephase(src):
                "(st : lstate Fld) : lstate Fld :=\n  run_while fuel (fun st => "
                "ode_running (l_ode st)) (loop_body T0 rTol spinodal paranoid) st.")
     # ---- after the loop: keep the first sweep / join the second ------------------------
-    post = floop.body[3:]
+    post = floop.body[5:]
     if len(post) != 1 or not isinstance(post[0], ast.If) or \
             ast.unparse(post[0].test) != "direction == 0":
         err(post[0] if post else floop, "statements after the while loop")
@@ -841,6 +854,7 @@ def gen_tracephase(src):
     # ---- tail: statements after the for loop up to the interpolation --------------------
     idx = fn.body.index(floop)
     tail = []
+    asserts_seen = []
     for s in fn.body[idx + 1:]:
         if isinstance(s, ast.If) and _has(s, ast.Call) and all(
                 isinstance(b, ast.Expr) and ast.unparse(b.value).startswith("logging.")
@@ -849,8 +863,20 @@ def gen_tracephase(src):
         if isinstance(s, ast.Assign) and ast.unparse(s.targets[0]) == "result":
             break
         if isinstance(s, ast.Assert):
-            out.append("(* assert after the range update: %s *)" % ast.unparse(s.test))
+            # the only assert of the tail: list comparison [maxT, flag] > [minT, flag]
+            # (lexicographic), evaluated after the two range stores and before the flags
+            if ast.unparse(s.test) != "self.maxPossibleTemperature > self.minPossibleTemperature" \
+                    or asserts_seen or len(tail) != 2:
+                err(s, "assert in the tail of tracePhase")
+            asserts_seen.append(s)
+            ta = Tr({"TFullList": ("TFullList", "listR"), "dT": ("dT", "R")}, RANGES)
+            out.append("Definition tail_assert (TFullList : list R) (dT : R) (st : ranges) : bool "
+                       ":=\n%s." % ta.block(list(tail), "(Rltb (minT st) (maxT st) || (Reqb (minT st) "
+                                            "(maxT st) && (maxFlag st && negb (minFlag st))))",
+                                            None))
             continue
+        if _has(s, ast.Raise) or _has(s, ast.Assert):
+            err(s, "raise/assert in the tail of tracePhase")
         tail.append(s)
     endb = list(fn.body)
     frozen = ast.unparse(endb[-1]) == "self.disableAdaptiveInterpolation()"
@@ -864,6 +890,8 @@ def gen_tracephase(src):
             "result = np.concatenate((fieldFullList, potentialEffFullList), axis=1)",
             "self.newInterpolationTableFromValues(TFullList, result)"]:
         err(fn.body[-1], "table construction")
+    if not asserts_seen:
+        raise TranslateError("the range assert of the tail of tracePhase is missing")
     tt = Tr({"TFullList": ("TFullList", "listR"), "dT": ("dT", "R"), "TMin": ("TMin", "R"),
              "TMax": ("TMax", "R"), "keepMinFlag": ("keepMinFlag", "bool"),
              "keepMaxFlag": ("keepMaxFlag", "bool")}, RANGES)
